@@ -38,6 +38,7 @@ Fields == {"buf", "flags", "payload", "indent", "seen", "refs"}
 Reads(k)  == CASE k \in {"plain", "fail"} -> {"buf", "flags", "seen", "refs"}
                [] k = "indent" -> {"buf", "flags", "indent", "seen", "refs"}
                [] k = "option" -> {"buf", "flags", "payload", "seen", "refs"}
+               [] k = "ctxaware" -> {"buf", "flags", "payload", "seen", "refs"}   \* a plain call that reaches a context-aware (un)marshaler
                [] OTHER -> {"buf", "flags"}
 Writes(k) == CASE k = "indent" -> {"buf", "indent", "seen", "refs"}
                [] k = "option" -> {"buf", "flags", "payload", "seen", "refs"}
